@@ -48,6 +48,14 @@ def gen(rng, tier):
     for n in range(-8, 9):
         xs += [Fraction(n), Fraction(2 * n + 1, 2), Fraction(n) + Fraction(1, 10 ** 6), Fraction(n) - Fraction(1, 10 ** 6),
                Fraction(2 * n + 1, 2) + Fraction(1, 10 ** 9), Fraction(2 * n + 1, 2) - Fraction(1, 10 ** 9)]
+    # around the widths of machine integers: a shortcut through i32 / i64 / u64 / f64 / i128 shows at its edge
+    for w in (31, 32, 53, 63, 64, 127, 128):
+        for off in (-2, -1, 0, 1):
+            for fr in (Fraction(1, 2), Fraction(7, 10), Fraction(1, 3), Fraction(0)):
+                for sg in (1, -1):
+                    xs.append(sg * (Fraction(2 ** w + off) - fr))
+    for d in (2, 10, 3):
+        xs += [Fraction(2 ** 63 - 1, d), Fraction(-(2 ** 63), d), Fraction(2 ** 63 - d + 1, d), Fraction(2 ** 64 - 1, d), Fraction(2 ** 31 - 1, d)]
     k = 150 if tier == "quick" else 2500
     for _ in range(k):
         c = rng.random()
